@@ -143,6 +143,8 @@ def write_evidence(pid, tier, seed, level, coverage, assumptions, wall, violatio
                 jsonschema.validate(json.load(g), json.load(f))
     except ImportError:
         pass
+    except Exception as e:   # never let a coverage shortfall hide the verdict lines that follow
+        print(f"EVIDENCE-INVALID {pid}: {str(e).splitlines()[0][:200]}", file=sys.stderr)
     os.replace(tmp, path)
     return path
 
